@@ -266,8 +266,16 @@ PREVIEWS = [{"least_squares_params": {"max_nfev": 3}}, {"least_squares_params": 
             {"least_squares_params": {"method": "dogbox", "max_nfev": 5}}, {"tolerance": 1e-1}]
 
 
+_SHARED_ARGS: dict = {}  # one refine_args object per option set and process, reused for all its images (as one
+#                          does when analysing a series of images); the library gets the very same dict every time
+
+
 def gen(rng, kind, tier):
     case = _gen(rng, kind, tier)
+    if case is not None and rng.random() < 0.15 and (case["levels"][1] >= 0.25 or case["levels"] == [0.0, 1.0]):
+        case["float32"] = True  # single-precision image (moderate contrast, so the profile is resolved by the type)
+    if case is not None and rng.random() < 0.5:
+        case["shared_args"] = True
     if case is not None and rng.random() < 0.12:
         # a quick, coarse preview of the same image with other fit options precedes the judged
         # call (ordinary use; earlier calls must not influence later ones)
@@ -297,9 +305,18 @@ def run(case, rec):
         prof = ScalarField(grid, data)
         rec.count("cylindrical_droplets_across_the_periodic_boundary")
     field = ScalarField(grid, a + b * prof.data)
+    if case.get("float32"):
+        field = ScalarField(grid, (a + b * prof.data).astype(np.float32), dtype=np.float32)
+        rec.count("single_precision_images")
     thr = case["threshold"]
     threshold = (a + b * float(thr)) if thr[0].isdigit() else thr
     kwargs = {"threshold": threshold, "refine": True, "refine_args": dict(case["refine_args"])}
+    if case.get("shared_args") and not case.get("preview"):
+        # automatic levels: the same dict object serves every image analysed with these options in this process
+        key = repr(sorted(case["refine_args"].items())) if case["refine_args"].get("vmin", 0) is None or not case["refine_args"] else None
+        if key is not None:
+            kwargs["refine_args"] = _SHARED_ARGS.setdefault(key, dict(case["refine_args"]))
+            rec.count("calls_sharing_one_refine_args_dict")
     if case.get("num_processes"):
         kwargs["num_processes"] = case["num_processes"]
         rec.count("with_worker_processes")
